@@ -191,13 +191,14 @@ type vfEnd struct {
 	// as with the io.Pipe pairs of the repository's own tests).
 	keepReadOnClose bool
 	// NoClose: Close is a no-op (writes keep succeeding after the owner closed the transport).
-	NoClose bool
-	closeOnce       sync.Once
-	closed          chan struct{}
+	NoClose   bool
+	closeOnce sync.Once
+	closed    chan struct{}
 }
 
 func (e *vfEnd) Read(p []byte) (int, error)  { return e.in.read(p) }
 func (e *vfEnd) Write(p []byte) (int, error) { return e.out.write(p) }
+
 // ForceClose closes the end even if NoClose is set.
 func (e *vfEnd) ForceClose() {
 	e.NoClose = false
